@@ -13,7 +13,9 @@
   * `process_packet_internal(&mut self, addr, buffer: &'a mut [u8])` decrypts in place: the buffer is returned with the
     result (also inside an `Err`); `ServerResult::Payload`'s `&'a [u8]` (a slice of `buffer`) and the `&'s mut [u8]`
     payloads (slices of `self.out`) are by value (manifest `BORROWED_FIELDS_OK`).  The theorems leave the buffer's and
-    the scratch buffer's contents existentially quantified (`∃ out' buf'`, `out'.length = NETCODE_MAX_PACKET_BYTES`).
+    the scratch buffer's contents existentially quantified (`∃ out' buf'`, `out'.length = NETCODE_MAX_PACKET_BYTES`);
+    the `_len` variants add `buf'.length = buffer.length` (decrypting in place keeps the buffer's length — used by the
+    transport's receive loop).
   * `Packet::decode(buffer, .., Some(&client.receive_key), Some(&mut client.replay_protection))?` with `client` an alias
     of an indexed / map element: the callee's `Err` state is written back into that element (the translator reads the
     intermediate places into temporaries before the call: the reads the argument evaluation performs anyway).
@@ -71,6 +73,18 @@ theorem nc_server_process_packet {ε : Type} (a : AEAD) (hl : a.Laws) (out : Lis
     PktOut (s.processPacket a addr buffer)
       (@NetcodeServer.process_packet (aeadOf a) ε (reprNS out s) (reprAddr addr) (toNats buffer)) :=
   ns_process_packet_eq a hl out hout s hent addr buffer hbl
+theorem nc_server_process_packet_internal_len (a : AEAD) (hl : a.Laws) (out : List Nat)
+    (hout : out.length = C.NETCODE_MAX_PACKET_BYTES) (s : Netcode.NetcodeServer) (hent : 0 < s.connectTokenEntries.length)
+    (addr : Addr) (buffer : Bytes) (hbl : buffer.length + 16 < 2 ^ 64) :
+    RecvOutL buffer.length (s.processPacketInternal a addr buffer)
+      (@NetcodeServer.process_packet_internal (aeadOf a) (reprNS out s) (reprAddr addr) (toNats buffer)) :=
+  ns_process_packet_internal_eqL a hl out hout s hent addr buffer hbl
+theorem nc_server_process_packet_len {ε : Type} (a : AEAD) (hl : a.Laws) (out : List Nat)
+    (hout : out.length = C.NETCODE_MAX_PACKET_BYTES) (s : Netcode.NetcodeServer) (hent : 0 < s.connectTokenEntries.length)
+    (addr : Addr) (buffer : Bytes) (hbl : buffer.length + 16 < 2 ^ 64) :
+    PktOutL buffer.length (s.processPacket a addr buffer)
+      (@NetcodeServer.process_packet (aeadOf a) ε (reprNS out s) (reprAddr addr) (toNats buffer)) :=
+  ns_process_packet_eqL a hl out hout s hent addr buffer hbl
 
 /-! ### the generated definitions on concrete values (toy AEAD: the tag is 16 zero bytes) -/
 
